@@ -62,7 +62,12 @@ class Reader:
             if pl in WORD:
                 l3 += [(WORD[pl], c, "word+" + kind) for lw, w, c, pr, kind in self.by_lower.get(bl, [])
                        if pr and (pl + w) != s and (pl + w).title() == s]
-        return l1, l2, l3
+        # class 4: any other capitalisation of a spelling / of prefix word + spelling
+        l4 = [(0, c, "case+" + kind) for lw, w, c, p, kind in bucket]
+        for i in range(1, len(sl)):
+            if sl[:i] in WORD:
+                l4 += [(WORD[sl[:i]], c, "word+case+" + kind) for lw, w, c, pr, kind in self.by_lower.get(sl[i:], []) if pr]
+        return l1, l2, l3, l4
 
     def verdict(self, s):
         """('unique', k, key, kind) | ('ambiguous', …) | ('unknown',)"""
@@ -75,8 +80,8 @@ class Reader:
         return ("unknown",)
 
     def all_values(self, s):
-        l1, l2, l3 = self.readings(s)
-        return {(k, c) for k, c, _ in l1 + l2 + l3}
+        l1, l2, l3, l4 = self.readings(s)
+        return {(k, c) for k, c, _ in l1 + l2 + l3 + l4}
 
 
 def odd_chars(s):
@@ -243,6 +248,22 @@ def run(tier, seed):
             if v[0] == "unique" and not (math.isclose(u.base_value, want, rel_tol=1e-14) and u.dimensions == LUT[c][1] and u.base_offset == LUT[c][2]):
                 chk.fail(f"wrong-unit|{pk}+{kind}|{odd_chars(s)}", f"Unit({s!r}) has scale {u.base_value!r}; prefix x unit is {want!r}",
                          {"python": snippet(f"u = Unit({s!r})\nassert math.isclose(u.base_value, {want!r}, rel_tol=1e-14) and u.dimensions == LUT[{c!r}][1], u.base_value\n")})
+
+    # a prefixed unit is not prefixable again: prefix symbol + listed prefixed name must be refused
+    prefixed_names = [n for n in names if (reader.verdict(n) + (0,))[1] != 0 and reader.verdict(n)[0] == "unique"]
+    pairs = [(p, n) for p in PRE for n in prefixed_names]
+    if tier == "quick":
+        pairs = rng.sample(pairs, 4000)
+    for p, n in pairs:
+        s = p + n
+        if s in INV:
+            continue
+        chk.case(("double-prefix", s))
+        chk.count("double-prefix")
+        u = unit_or_err(s)
+        if not isinstance(u, Exception) and len(reader.all_values(s)) == 0:
+            chk.fail(f"double-prefix-accepted|{odd_chars(s)}", f"Unit({s!r}) is accepted (scale {u.base_value!r}) although {n!r} already carries a prefix",
+                     {"python": snippet(f"Unit({n!r})\ntry:\n    u = Unit({s!r})\nexcept Exception:\n    u = None\nassert u is None, (u, u.base_value)\n")})
 
     # ------------------------------------------------------------------ strings with several readings
     multi = [s for s in dict.fromkeys(names + extra_strings) if len(reader.all_values(s)) > 1]
